@@ -91,8 +91,9 @@ package sms2fa
 //@        (before Body.Read(_) -> (?vals, ?re) :: re == nil && val(vals, "GetCode") == sess(r, SessionSMSSecret)))
 //@   ensures[C13] enrol_code_for_number: each Store.Save(?sv) -> _ => (s.Page == PageSMSConfirm) ==>
 //@       ghost(r, "sms_number") == sess(r, SessionSMSNumber)
-//@   ensures[C13] authorisation_spent: each Store.Save(_) -> ?e => (s.Page == PageSMSConfirm && e == nil && result == nil) ==>
-//@       (after Sess.Del(Session2FAAuthed) && after Sess.Del(SessionSMSSecret) && after Sess.Del(SessionSMSNumber))
+//@   ensures[C13] authorisation_spent: each Store.Save(_) -> ?e => (s.Page == PageSMSConfirm && e == nil && !panics) ==>
+//@       (after Sess.Del(Session2FAAuthed) && after Sess.Del(SessionSMSSecret) && after Sess.Del(SessionSMSNumber) &&
+//@        (each Fire("After", _, _, _, _) => before Sess.Del(Session2FAAuthed) && before Sess.Del(SessionSMSSecret)))
 //@   ensures[C18] no_panic: !panics
 //@   ensures[C18] save_error_outcome: each Store.Save(_) -> ?e => e != nil ==> (result == e && !emits Sess.Put("uid", _))
 //@
